@@ -20,7 +20,9 @@ MANIFEST = dict(
          "HTTPException 404 / 400; nothing else happens), static_serves_file (on either interface a 200 / 206 body is exactly the "
          "content, resp. the requested slices, of the regular file C07's lexical resolution names inside the directory; 304 has "
          "Cache-Control, Vary, Content-Length: 0 and no body and is given exactly when C14's decision says so; a rejected Range "
-         "carries no file byte; everything else is HTTPException(404) or the slash redirect of Pages / HTTPException(400)) "
+         "carries no file byte; everything else is HTTPException(404) or the slash redirect of Pages / HTTPException(400)), "
+         "static_redirect_location (for a request of C18's grammar the redirect is 307 with Location = iri_to_uri('//' + authority "
+         "+ root path + path + '/' + ['?' + query]), never 400) "
          "and app_equiv / app_equiv_below (by induction on an application tree of any depth: views that answer with response recipes, "
          "Router, Subpaths, Hosts over any fullmatch oracle, Files / Pages on any file system; for every abstract request the run "
          "built from the WSGI model functions of C08/C09/C07/C14/C02/C18/C04 and the run built from the ASGI ones both answer with a "
